@@ -23,8 +23,8 @@ RULE = (
     "as whole sub-models, before the first login; optionally a second change in place / by replacement between a "
     "loss and the next login) x login reply (accept | reject | garbled | eof | silent) "
     "x fault position P1 (before login; login reply pending; after the client wrote k of its post-login frames, k "
-    "enumerated; idle; download connecting / stalled; search with timeout pending; potential-parent connect slow / "
-    "hanging; a scripted peer established as distributed parent at level 0 / level 2 whose connection survives the "
+    "enumerated; idle; download connecting / stalled; search with timeout pending; connects to 1..4 slow / hanging "
+    "potential parents pending, PotentialParents sent once or twice; a scripted peer established as distributed parent at level 0 / level 2 whose connection survives the "
     "server loss) x optional manual re-login (Network.connect_server + login() by the application when no automatic "
     "reconnect applies) x fault (none | requested = Network.disconnect_server | server EOF | server reset | write blocked -> "
     "TIMEOUT | write error | stop()) x who performs the write that meets a blocked / failing transport (user command | "
@@ -49,7 +49,8 @@ RULE = (
     "listener of the CLOSED event is reached; (5) "
     "after stop() returned and 1000 virtual seconds: no connect was started and no connection got established after "
     "the return, every client-side socket and listening port is closed, the server received nothing, no task other "
-    "than the driver's is pending. Non-trivial = non-default configuration, a login that does not succeed, or a "
+    "than the driver's is pending, and already 1 s after the return no task other than search request timers. "
+    "Non-trivial = non-default configuration, a login that does not succeed, or a "
     "fault/stop at a non-idle point; distinct = distinct sanitised case."
 )
 ASSUMPTIONS = [
@@ -108,6 +109,7 @@ WISHLIST_INTERVAL = 2
 CONNECT_TIMEOUT = 30.0                          # aioslsk.constants.SERVER_CONNECT_TIMEOUT
 CLEAR_PORT, OBF_PORT = 60000, 60001
 HORIZON = 1000.0
+SETTLE = 1.0          # cancelled tasks must be gone this long after stop() returned
 RELOGIN_WINDOW = 25.0
 
 DEFAULT_CFG = {'clear': 'on', 'obf': 'on', 'friends': [], 'liked': [], 'hated': [], 'favs': [], 'auto_join': True,
@@ -194,6 +196,9 @@ def _sanitise(case):
         ok = 0
     if ok == 0:
         omode = None
+    # number of peers in the PotentialParents list (all slow / hanging) and whether the server sends the list twice
+    npp = _clamp_int(p1.get('npp', 1), 1, 4, 1) if point == 'parent' else 0
+    twice = bool(p1.get('twice')) if point == 'parent' else False
     if point == 'parented':
         # the parent connection must outlive the outage (peer read timeout 60 s): short detection, short attempts
         if writer in ('ping', 'wishlist'):
@@ -224,12 +229,16 @@ def _sanitise(case):
             change, apply2 = None, None
     return {'cfg': cfg, 'login': login, 'point': point, 'var': var, 'k': k, 'fault': fault,
             'when': when, 'dt': dt, 'k2': k2, 'writer': writer, 'ok': ok, 'omode': omode,
-            'apply': apply, 'change': change, 'apply2': apply2, 'manual': manual}
+            'apply': apply, 'change': change, 'apply2': apply2, 'manual': manual, 'npp': npp, 'twice': twice}
 
 
 def _doc(cfg, login='accept', point='idle', fault='none', k=1, var=None, when='end', ms=50, k2=0, writer=None,
-         outage=None, apply=None, change=None, manual=False):
+         outage=None, apply=None, change=None, manual=False, npp=1, twice=False):
     p1 = {'point': point}
+    if point == 'parent' and npp > 1:
+        p1['npp'] = npp
+    if point == 'parent' and twice:
+        p1['twice'] = True
     if writer and writer != 'command':
         p1['writer'] = writer
     if point == 'burst':
@@ -281,7 +290,8 @@ def case_strategy(draw, favs=True):
     if scenario == 'config':       # settings x plain life cycle (with or without pending work)
         point = draw(st.sampled_from(['idle', 'idle', 'idle', 'search', 'transfer', 'parent']))
         var = draw(st.sampled_from(VARIANTS[point])) if point in VARIANTS else None
-        return _doc(cfg, 'accept', point, 'none', var=var, apply=apply)
+        return _doc(cfg, 'accept', point, 'none', var=var, apply=apply, npp=draw(st.integers(1, 4)),
+                    twice=draw(st.booleans()))
     if scenario == 'login':        # logins that do not succeed
         login = draw(st.sampled_from(['reject', 'garbled', 'eof', 'silent']))
         return _doc(cfg, login, draw(st.sampled_from(['idle', 'prelogin', 'pending'])),
@@ -289,8 +299,9 @@ def case_strategy(draw, favs=True):
                     when=draw(st.sampled_from(['end', 'loss'])), ms=draw(st.sampled_from([0, 50, 700])))
     point = draw(any_point)
     var = draw(st.sampled_from(VARIANTS[point])) if point in VARIANTS else None
+    npp, twice = draw(st.integers(1, 4)), draw(st.booleans())
     if scenario == 'stop':         # stop() at every point
-        return _doc(cfg, 'accept', point, 'stop', k=k, var=var, apply=apply)
+        return _doc(cfg, 'accept', point, 'stop', k=k, var=var, apply=apply, npp=npp, twice=twice)
     cfg['reconnect'] = draw(st.sampled_from([True, True, True, False]))
     fault = draw(st.sampled_from(['reset', 'reset', 'timeout', 'write_error', 'write_error', 'eof', 'requested']))
     when = draw(st.sampled_from(['end', 'end', 'loss', 'loss', 'reconnecting', 'relogin', 'relogin']))
@@ -301,7 +312,7 @@ def case_strategy(draw, favs=True):
                 ms=draw(st.sampled_from([0, 1, 50, 300, 700, rt - 100, rt + 100, rt + 400, rt + 600, rt + 900])),
                 k2=draw(st.integers(0, 20)), writer=writer, outage=outage, apply=apply,
                 change=draw(st.none() | st.tuples(st.sampled_from(APPLY[1:]), change_strategy())),
-                manual=draw(st.booleans()))
+                manual=draw(st.booleans()), npp=npp, twice=twice)
 
 
 @st.composite
@@ -967,10 +978,14 @@ def _run(c, tmp, res):
                     violate(f'C16/unexpected-exception:{type(exc).__name__}@search', repr(exc))
                 await asyncio.sleep(0.2)
             elif point == 'parent':
-                pp = world.add_peer('pp', direct='accept' if var == 'slow' else 'hang', direct_delay=2.0,
-                                    indirect='silent')
-                srv.send(M.PotentialParents.Response([PotentialParent('pp', pp.ip, pp.port)]))
+                pps = [world.add_peer('pp' if i == 0 else 'pp%d' % i, direct='accept' if var == 'slow' else 'hang',
+                                      direct_delay=2.0, indirect='silent') for i in range(c['npp'])]
+                entries = [PotentialParent(pp.name, pp.ip, pp.port) for pp in pps]
+                srv.send(M.PotentialParents.Response(entries))
+                if c['twice']:
+                    srv.send(M.PotentialParents.Response(entries), delay=0.02)
                 await asyncio.sleep(0.1)
+                res.label('potential-parents:%d%s' % (c['npp'], 'x2' if c['twice'] else ''))
             elif point == 'parented':
                 level = 0 if var == 'level0' else 2
                 par = world.add_peer(PARENT_NAME, direct='accept', direct_delay=0.002, indirect='silent')
@@ -1191,6 +1206,10 @@ def _run(c, tmp, res):
             violate(f'C16/unexpected-exception:{type(exc).__name__}@stop', repr(exc))
         t_ret = stop_info['t_ret']
         res.label('stop-at:' + stop_info['where'].split('+')[0].split('-k')[0])
+        # cancelled tasks get a second to finish; request timers of searches (<= 20 s) are left to expire
+        await asyncio.sleep(max(0.0, t_ret + SETTLE - loop.time()))
+        early_pending = [(t.get_name(), _task_label(t)) for t in world.library_tasks(exclude=own_tasks)
+                         if _task_label(t) != 'Timer.runner']
         await asyncio.sleep(max(0.0, t_ret + HORIZON - loop.time()))
         if check_deadlock(f'{HORIZON:.0f} s after stop()'):
             return
@@ -1222,15 +1241,17 @@ def _run(c, tmp, res):
             if world.net.client_listeners:
                 violate('C16/socket-open-after-stop:listening',
                         f'listening ports still bound: {sorted(world.net.client_listeners)}')
-            pending = world.library_tasks(exclude=own_tasks)
-            if pending:
-                names = {_task_label(t) for t in pending}
+            pending = [(t.get_name(), _task_label(t)) for t in world.library_tasks(exclude=own_tasks)]
+            for records, after in ((pending, HORIZON), (early_pending, SETTLE)):
+                if not records:
+                    continue
+                names = {label for _, label in records}
                 if names & {'TransferManager._queue_remotely', 'Network.create_peer_connection'}:
                     # connect attempts are children of the task that asked for the connection
                     names -= {'Network._make_direct_connection', 'Network._make_indirect_connection'}
                 names = sorted(names)
-                detail = (f'{len(pending)} task(s) still pending {HORIZON:.0f} s after stop() returned (stop called '
-                          f'{stop_info["where"]}): ' + '; '.join(f'{t.get_name()}={_task_label(t)}' for t in pending[:6]))
+                detail = (f'{len(records)} task(s) still pending {after:.0f} s after stop() returned (stop called '
+                          f'{stop_info["where"]}): ' + '; '.join(f'{n}={label}' for n, label in records[:6]))
                 login_in_flight = 't' in login_out and stop_info['t_call'] <= login_out['t'] or \
                     (login_out == {} and login_started)
                 if login_in_flight and all(n.startswith('UserTrackingManager.') for n in names):
@@ -1239,6 +1260,7 @@ def _run(c, tmp, res):
                     violate('C16/task-pending-after-stop:tracking-started-by-login-in-flight', detail)
                 else:
                     violate('C16/task-pending-after-stop:' + '+'.join(names), detail)
+                break
             late_frames = [(round(t, 3), type(m).__qualname__) for t, i, m in world.server.frames if t > t_ret + 0.01]
             if late_frames:
                 violate('C16/frames-after-stop', f'server received {late_frames[:5]} after stop() returned at {t_ret:.3f}')
@@ -1341,8 +1363,24 @@ def change_cases():
     return out
 
 
+def parents_cases():
+    """Several potential-parent connects pending (2..4 slow / hanging peers, list sent once or twice) at stop() / loss."""
+    out = []
+    for cfg0 in (CFG_RICH, CFG_FAVS):
+        for var in VARIANTS['parent']:
+            for npp, twice in ((1, True), (2, False), (2, True), (3, False), (3, True), (4, False), (4, True)):
+                for auto in (True, False):
+                    cfg = dict(cfg0, reconnect=auto, rtimeout=1)
+                    for fault in ('stop', 'none', 'requested', 'eof', 'reset', 'write_error'):
+                        whens = (('end', 0), ('loss', 50)) if fault in LOSS_FAULTS else (('end', 0),)
+                        for when, ms in whens:
+                            out.append(_doc(cfg, 'accept', 'parent', fault, var=var, when=when, ms=ms, npp=npp,
+                                            twice=twice))
+    return out
+
+
 def enumerated_cases(tier):
-    out = config_cases() + change_cases()
+    out = config_cases() + change_cases() + parents_cases()
     cfgs = (CFG_RICH, CFG_FAVS) if tier == 'quick' else (CFG_RICH, CFG_FAVS, CFG_BARE)
     for cfg0 in cfgs:
         n = _n_burst(cfg0)
